@@ -63,7 +63,7 @@ theorem inv_lay {s s' : State} {l a : Nat} (hi : Inv s) (h : step s (.lay l a) =
           · rename_i p2 hrel
             obtain ⟨d2, hp2⟩ := delta_releaseAll hrel hp1
             injection h with h; subst h
-            refine inv_setLay hi hl.1 ?_ hp2
+            refine inv_setLay hi hl.1.1 ?_ hp2
             rw [layIds_layoutInds] at d2
             intro j
             have := d1 j; have := d2 j
